@@ -767,6 +767,30 @@ def translate(spec, src_cache):
         src_cache[path] = (text, ast.parse(text))
     text, tree = src_cache[path]
     func = _find_func(tree, spec["func"])
+    if spec["loc"][0] == "queue_ops":
+        # static kernel: which handler of a class appends to / pops from / reads which deque attribute (`q_*`)
+        handlers = spec["loc"][1]
+        out = set()
+        for m in func.body:
+            if not (isinstance(m, ast.FunctionDef) and m.name in handlers):
+                continue
+            used = set()
+            for n in ast.walk(m):
+                if isinstance(n, ast.Call) and isinstance(n.func, ast.Attribute) and isinstance(n.func.value, ast.Attribute) and n.func.value.attr.startswith("q_"):
+                    kind = {"append": "append", "extend": "append", "appendleft": "append", "popleft": "pop", "pop": "pop", "clear": "pop"}.get(n.func.attr, "read")
+                    out.add((m.name, n.func.value.attr, kind))
+                    used.add(id(n.func.value))
+            for n in ast.walk(m):
+                if isinstance(n, ast.Attribute) and n.attr.startswith("q_") and id(n) not in used:
+                    out.add((m.name, n.attr, "store" if isinstance(n.ctx, ast.Store) else "read"))
+        missing = [h for h in handlers if not any(isinstance(m, ast.FunctionDef) and m.name == h for m in func.body)]
+        if missing:
+            raise ExtractError(f"handlers {missing} not found in class {spec['func']}")
+        rows = sorted(out)
+        body = ",\n   ".join(f'("{a}", "{b}", "{c}")' for a, b, c in rows)
+        lean = (f"/-- `{spec['file']}` class `{spec['func']}`: every operation of the handlers {handlers} on a deque attribute `q_*` "
+                f"(handler, queue, append | pop | read | store) -/\ndef {spec['name']} : List (String × String × String) :=\n  [{body}]\n")
+        return lean, f"{len(rows)} queue operations", func.lineno, ast.get_source_segment(text, func)
     if spec["loc"][0] == "stmt_order":
         # static kernel: do the statements matching the given source fragments occur (each exactly once) in the given order?
         frags = spec["loc"][1]
